@@ -141,6 +141,17 @@ CHECKS = {
             "at a C-call boundary is copied and loaded and must equal the previous or the new configuration.",
             "Crash model is process death at C-call boundaries (no torn writes, no power loss); file-system rename atomicity is trusted.",
             "5/C19"),
+    "C16": ("exploration",
+            "model-based generated event histories over the full default stack under the deterministic scheduler, against "
+            "a reference connection state machine; blocking dispatcher double and Noise responder double as environment",
+            "Generated histories of connect / refused / peer close / disconnect / success / failure / stream errors / keep-alive "
+            "ticks on a virtual clock / pongs / sends run through the real full stack; after every step the network layer's "
+            "announcements, dispatcher calls, login attempts on the wire, auth/authed events and entities at the top are compared "
+            "with the reference machine (reconnect policy, keep-alive decision, no write while down, fresh login after every "
+            "connect).",
+            "The dispatcher double keeps the blocking contract of the real dispatchers (which are not exercised themselves); "
+            "top-level order is not asserted, only counts after close-out.",
+            "5/C16"),
     "C18": ("exploration",
             "Hypothesis-generated stack shapes executed against a reference interpreter of data/event semantics; default "
             "helpers enumerated over all flag combinations",
